@@ -27,7 +27,9 @@ ASSUMPTIONS = ['-D is driven by a scripted stdin answering "c"',
 FLOORS = {'snapshots_compared': 1500, 'effective_option_cases': 1000,
           'aborted_runs': 500, 'kbint_runs': 300, 'option_effect_probes': 1400,
           'warnoptions_cases': 200,
-          'application_traceback_functions': 200}
+          'application_traceback_functions': 200,
+          'application_trace_hook_under_coverage': 60,
+          'tests_clearing_the_trace_hook_under_coverage': 40}
 BATCH_TIMEOUT = 600
 
 OPTS = ['gc', 'gcopt', 'coverage', 'profile', 'buffer', 'warnings', 'pm']
@@ -151,6 +153,32 @@ def run_case(case):
         dropped_path = True
     else:
         dropped_path = False
+    # the embedding program (a debugger, an outer coverage or profiling
+    # tool, an IDE's test view) may have trace / profile functions installed
+    # when the run starts ...
+    pre_hooks = []
+    if rng.random() < 0.3:
+        pre_hooks = rng.choice([['trace'], ['profile'], ['trace', 'profile'],
+                                ['trace']])
+    if 'pm' in subset and 'trace' in pre_hooks:
+        # the scripted debugger session answers "c": bdb then clears the
+        # trace hook (set_continue without breakpoints) - the debugger
+        # user's doing, not a change the runner made for the run
+        pre_hooks = [h for h in pre_hooks if h != 'trace']
+    # ... and tests use these hooks themselves (trace.Trace.runfunc,
+    # bdb.Bdb.runcall, profile.Profile.runcall: install, call, take away)
+    used_hooks = None
+    if rng.random() < 0.3:
+        which = rng.choice([['trace'], ['profile'], ['trace', 'profile'],
+                            ['threading_trace'], ['threading_profile'],
+                            ['trace', 'threading_trace']])
+        # a test that clears a hook with set...(None) clears what the
+        # embedding program had installed as well - that would be the
+        # test's doing, not the runner's: such tests put back what they found
+        how = 'saved' if pre_hooks else rng.choice(['none', 'none', 'saved'])
+        used_hooks = {'ph': rng.choice(['setUp', 'body', 'tearDown']),
+                      'do': 'use_hooks', 'which': which, 'how': how}
+        rng.choice([t0, t1, t2])['actions'].append(used_hooks)
     plan = {}
     opts = {'verbose': rng.randint(0, 2)}
     if ending in ('failing', 'stop'):
@@ -268,6 +296,20 @@ def run_case(case):
             traceback.print_exception = app_print_exception
         if pre_debug is not None:
             gc.set_debug(pre_debug)
+        if 'profile' in pre_hooks:
+            import threading
+
+            def app_profile(frame, event, arg):
+                return None
+            threading.setprofile(app_profile)
+            sys.setprofile(app_profile)
+        if 'trace' in pre_hooks:
+            import threading
+
+            def app_trace(frame, event, arg):
+                return None
+            threading.settrace(app_trace)
+            sys.settrace(app_trace)
         if pre_thr is not None:
             gc.set_threshold(*pre_thr)
         before.update(snapshot())
@@ -283,7 +325,8 @@ def run_case(case):
 
     def V(rule, mech, **d):
         d.update(subset=subset, ending=ending, argv=argv, warn=warn,
-                 warnoptions=wopt)
+                 warnoptions=wopt, pre_hooks=pre_hooks,
+                 used_hooks=used_hooks)
         if len(viol) < 8:
             viol.append({'rule': rule, 'mech': mech, 'detail': d})
 
@@ -314,6 +357,15 @@ def run_case(case):
     C('snapshots_compared')
     if pre_tb:
         C('application_traceback_functions')
+    if pre_hooks:
+        C('application_trace_or_profile_hooks')
+        if 'trace' in pre_hooks and 'coverage' in subset:
+            C('application_trace_hook_under_coverage')
+    if used_hooks and any(e['k'] == 'hooks.used' for e in w.events):
+        C('tests_using_trace_or_profile_hooks')
+        if 'coverage' in subset and 'trace' in used_hooks['which'] and \
+                used_hooks['how'] == 'none':
+            C('tests_clearing_the_trace_hook_under_coverage')
     if pre_debug is not None or pre_thr is not None:
         C('non_default_initial_state')
         if pre_debug is not None and 'gcopt' in effects and any(
